@@ -35,7 +35,10 @@
      CloseWriter  Writer.Close (request stream closed; uncommitted buffers are dropped)
      IterOpen     iterator.Service.Open: validateChannelKeys (free key -> validation error,
                   unknown key -> not found), Batch, one stream per peer + gateway iterator;
-                  followed here by ONE broadcast command sequence (SeekFirst, Next(max))
+                  followed here by ONE broadcast command sequence (SeekFirst, Next(max)).
+                  The range [a,b) reaches the leaseholders either in the open request or by a
+                  SetBounds command broadcast on the OPEN iterator (the harness replays every
+                  read both ways and in both directions: SeekFirst/Next and SeekLast/Prev)
      IterResp     the storage iterator of node n answers with its channels' samples
      IterAck      synchronizer releases the ack once every involved node answered;
                   Iterator.Value merges the data responses
